@@ -129,60 +129,59 @@ Definition held_of (f : sfut) : list nat :=
   match f with SFSend v => [v] | SFBatch r _ => r | SFBatchMut r _ => r end.
 Definition held (s : st) : list nat := match sf s with Some (f, _) => held_of f | None => [] end.
 
-Definition emit (e : event) (s : st) : st := set_ev (ev s ++ [e]) s.
+Definition opt_is {A : Type} (o : option A) : bool := match o with Some _ => true | None => false end.
+Definition is_nil {A : Type} (l : list A) : bool := match l with [] => true | _ :: _ => false end.
+Definition wake_ev (o : option nat) : list event := match o with Some w => [EWake w] | None => [] end.
 
-(* SpscShared::wake_one(Role::Recv) / (Role::Send) *)
-Definition wake_r (s : st) : st :=
-  match cw s with
-  | Some w =>
-    let s1 := match st_pend s with
-              | Some w' => if w' =? w then set_st_woken true s else s
-              | None => s end in
-    s1 |> set_cw None |> set_r_woken true |> emit (EWake w)
-  | None => s
-  end.
-Definition wake_s (s : st) : st :=
-  match pw s with Some w => s |> set_pw None |> set_s_woken true |> emit (EWake w) | None => s end.
+(* All state transformers below are straight-line compositions of field updates (conditions sit inside
+   the field values), so every field of the result is an explicit expression of the fields of `s`. *)
+
+(* SpscShared::wake_one(Role::Recv) / (Role::Send), executed iff b *)
+Definition wake_r_if (b : bool) (s : st) : st :=
+  s |> set_st_woken (st_woken s || (b && match cw s, st_pend s with Some w, Some w' => w' =? w | _, _ => false end))
+    |> set_r_woken (r_woken s || (b && opt_is (cw s)))
+    |> set_ev (ev s ++ if b then wake_ev (cw s) else [])
+    |> set_cw (if b then None else cw s).
+Definition wake_s_if (b : bool) (s : st) : st :=
+  s |> set_s_woken (s_woken s || (b && opt_is (pw s)))
+    |> set_ev (ev s ++ if b then wake_ev (pw s) else [])
+    |> set_pw (if b then None else pw s).
+Definition wake_r := wake_r_if true.
+Definition wake_s := wake_s_if true.
 
 (* write_batch of exactly `ids` (the caller has checked the free space); notify_receivers iff sent > 0 *)
 Definition push (ids : list nat) (s : st) : st :=
-  match ids with
-  | [] => s
-  | _ => wake_r (s |> set_q (q s ++ ids) |> set_accepted (accepted s ++ ids))
-  end.
+  wake_r_if (negb (is_nil ids)) (s |> set_q (q s ++ ids) |> set_accepted (accepted s ++ ids)).
 (* read_batch of k <= len items; notify_senders iff got > 0 *)
 Definition pop (k : nat) (s : st) : st :=
-  match k with
-  | 0 => s
-  | _ => wake_s (s |> set_received (received s ++ firstn k (q s)) |> set_q (skipn k (q s)))
-  end.
+  wake_s_if (negb (k =? 0)) (s |> set_received (received s ++ firstn k (q s)) |> set_q (skipn k (q s))).
 Definition give_back (ids : list nat) (s : st) : st := set_returned (returned s ++ ids) s.
 Definition destroy (ids : list nat) (s : st) : st :=
   s |> set_dropped (dropped s ++ ids) |> set_ev (ev s ++ map EDrop ids).
 
 Definition free (s : st) : nat := cap s - length (q s).
 
-(* close_internal of a sender / receiver handle *)
-Definition close_int_s (s : st) : st :=
-  let old := scount s in
-  let s1 := s |> set_pdrop true |> set_scount (old - 1)%Z in
-  if (old =? 1)%Z then wake_r s1 else s1.
-Definition close_int_r (s : st) : st :=
-  let old := rcount s in
-  let s1 := s |> set_cdrop true |> set_rcount (old - 1)%Z in
-  if (old =? 1)%Z then wake_s s1 else s1.
+(* close_internal of a sender / receiver handle, executed iff b *)
+Definition close_int_s_if (b : bool) (s : st) : st :=
+  wake_r_if (b && (scount s =? 1)%Z)
+            (s |> set_pdrop (pdrop s || b) |> set_scount (if b then (scount s - 1)%Z else scount s)).
+Definition close_int_r_if (b : bool) (s : st) : st :=
+  wake_s_if (b && (rcount s =? 1)%Z)
+            (s |> set_cdrop (cdrop s || b) |> set_rcount (if b then (rcount s - 1)%Z else rcount s)).
+Definition close_int_s := close_int_s_if true.
+Definition close_int_r := close_int_r_if true.
 
 (* Arc<SpscShared> released by the second handle: Ring::drop drains what is left *)
+Definition both_gone (s : st) : bool := match sh s, rh s with HGone, HGone => true | _, _ => false end.
 Definition shared_drop_if (s : st) : st :=
-  match sh s, rh s with
-  | HGone, HGone => s |> set_drained (drained s ++ q s) |> set_ev (ev s ++ map EDrop (q s)) |> set_q []
-  | _, _ => s
-  end.
+  s |> set_drained (drained s ++ if both_gone s then q s else [])
+    |> set_ev (ev s ++ if both_gone s then map EDrop (q s) else [])
+    |> set_q (if both_gone s then [] else q s).
 
 Definition clear_stream_pend (s : st) : st :=
-  set_st_pend None (match r_pend s with Some (OStream, _) => set_r_pend None s | _ => s end).
+  s |> set_st_pend None |> set_r_pend (match r_pend s with Some (OStream, _) => None | x => x end).
 Definition clear_fut_pend (s : st) : st :=
-  match r_pend s with Some (OFut, _) => set_r_pend None s | _ => s end.
+  set_r_pend (match r_pend s with Some (OFut, _) => None | x => x end) s.
 Definition note_disc (s : st) : st := set_rdisc true s.
 
 Definition gate_s (s : st) (need : option kind) (body : kind -> bool -> st * res) : st * res :=
@@ -286,8 +285,7 @@ Definition do_conv_s (cf : cfg) (s : st) : st * res :=
 
 Definition do_drop_s (s : st) : st * res :=
   gate_s s None (fun _ c =>
-    let s1 := if c then s else close_int_s s in
-    (shared_drop_if (set_sh HGone s1), ROk)).
+    (shared_drop_if (set_sh HGone (close_int_s_if (negb c) s)), ROk)).
 
 Definition do_mk_s (f : sfut) (n : nat) (s : st) : st * res :=
   gate_s s (Some KAsync) (fun _ _ => (s |> alloc n |> set_sf (Some (f, false)), ROk)).
@@ -295,7 +293,7 @@ Definition do_mk_s (f : sfut) (n : nat) (s : st) : st * res :=
 Definition do_poll_s (w : nat) (s : st) : st * res :=
   match sh s, sf s with
   | HLive _ c, Some (f, reg) =>
-    let unreg (s : st) := if reg then set_pw None s else s in
+    let unreg (s : st) := set_pw (if reg then None else pw s) s in
     let done (s : st) := s |> set_sf None |> set_s_pend None in
     let pending (f' : sfut) (s : st) :=
       (s |> set_pw (Some w) |> set_sf (Some (f', true)) |> set_s_pend (Some w) |> set_s_woken false, RPending) in
@@ -333,7 +331,7 @@ Definition do_poll_s (w : nat) (s : st) : st * res :=
 Definition do_dropfut_s (s : st) : st * res :=
   match sf s with
   | Some (f, reg) =>
-    let s1 := (if reg then set_pw None s else s) |> set_sf None |> set_s_pend None in
+    let s1 := s |> set_pw (if reg then None else pw s) |> set_sf None |> set_s_pend None in
     match f with
     | SFSend v => (destroy [v] s1, ROk)
     | SFBatch rest _ => (destroy rest s1, ROk)
@@ -376,7 +374,7 @@ Definition do_obs_r (s : st) : st * res :=
     (s, RObs (length (q s)) (length (q s) =? 0) (cap s <=? length (q s))
              (c || (negb (senders_alive s) && (length (q s) =? 0))) (cap s))).
 
-Definition stream_unreg (s : st) : st := if rreg s then s |> set_cw None |> set_rreg false else s.
+Definition stream_unreg (s : st) : st := s |> set_cw (if rreg s then None else cw s) |> set_rreg false.
 
 Definition do_conv_r (cf : cfg) (s : st) : st * res :=
   gate_r s None (fun k c =>
@@ -386,8 +384,7 @@ Definition do_conv_r (cf : cfg) (s : st) : st * res :=
 Definition do_drop_r (s : st) : st * res :=
   gate_r s None (fun k c =>
     let s1 := match k with KAsync => clear_stream_pend (stream_unreg s) | KSync => s end in
-    let s2 := if c then s1 else close_int_r s1 in
-    (shared_drop_if (set_rh HGone s2), ROk)).
+    (shared_drop_if (set_rh HGone (close_int_r_if (negb c) s1)), ROk)).
 
 Definition do_mk_r (f : rfut) (s : st) : st * res :=
   gate_r s (Some KAsync) (fun _ _ => (set_rf (Some (f, false)) s, ROk)).
@@ -395,7 +392,7 @@ Definition do_mk_r (f : rfut) (s : st) : st * res :=
 Definition do_poll_r (w : nat) (s : st) : st * res :=
   match rh s, rf s with
   | HLive _ c, Some (f, reg) =>
-    let unreg (s : st) := if reg then set_cw None s else s in
+    let unreg (s : st) := set_cw (if reg then None else cw s) s in
     let done (s : st) := s |> set_rf None |> clear_fut_pend in
     let pending (s : st) :=
       (s |> set_cw (Some w) |> set_rf (Some (f, true)) |> set_r_pend (Some (OFut, w)) |> set_r_woken false, RPending) in
@@ -424,7 +421,7 @@ Definition do_poll_r (w : nat) (s : st) : st * res :=
 
 Definition do_dropfut_r (s : st) : st * res :=
   match rf s with
-  | Some (_, reg) => ((if reg then set_cw None s else s) |> set_rf None |> clear_fut_pend, ROk)
+  | Some (_, reg) => (s |> set_cw (if reg then None else cw s) |> set_rf None |> clear_fut_pend, ROk)
   | None => (s, RNoFut)
   end.
 
